@@ -205,11 +205,11 @@ class StructFile(object):
         # Store numbers 0-253 in one byte. Byte 254 means "an unsigned 16-bit
         # int follows." Byte 255 means "An unsigned 32-bit int follows."
         if i <= 253:
-            self.write(chr(i))
+            self.write(pack_byte(i))
         elif i <= 65535:
-            self.write("\xFE" + pack_ushort(i))
+            self.write(pack_byte(254) + pack_ushort(i))
         else:
-            self.write("\xFF" + pack_uint(i))
+            self.write(pack_byte(255) + pack_uint(i))
 
     def read_tagint(self):
         """Reads a sometimes-compressed unsigned integer from the wrapped file.
